@@ -81,8 +81,11 @@ class _FieldOfDressed:
             # Copy the python data (changes also dressed_new._xobject)
             dressed_new.__dict__.update(value.__dict__)
 
-            # Restore correct _xobject
-            dressed_new._xobject = getattr(container._xobject, self.name)
+            # Restore correct _xobject and re-dress the nested parts (the python
+            # attributes just copied still hold the dressed parts of `value`)
+            dressed_new._reinit_from_xobject(
+                _xobject=getattr(container._xobject, self.name)
+            )
         else:
             self.content = None
             setattr(container._xobject, self.name, value)
